@@ -57,6 +57,16 @@ def data_seed(seed, idx):
     return seed * 100003 + idx % 5
 
 
+def pick_level(seed, idx, k, a, thorough):
+    """Compression level of a write-out (0 = the writer's default), drawn from the seed. The pure-Go zstd maps levels onto
+    four encoders (<3, 3..5, 6..9, >=10); its two largest ones need seconds of CPU per write-out of sorted flow columns, so
+    they are drawn rarely (the largest only in the thorough tier)."""
+    rng = random.Random(seed * 1000003 + idx * 31 + k)
+    if a["e"] == "zstd" and impl_of(a["b"], "zstd") == "native":
+        return rng.choice([1, 1, 1, 3, 0, 19] if thorough else [1, 1, 1, 1, 3, 0])
+    return rng.choice([0, 0, 1, {"lz4": 12, "zstd": 19, "null": 0}[a["e"]]])
+
+
 def impl_of(build, enc):
     return c07.BUILDS[build][enc] if enc in ("lz4", "zstd") else "go"
 
@@ -70,12 +80,13 @@ def main():
     ph.mark("build")
     with vlib.Scratch("verif-c02-") as sc:
         # ---- M
-        r = vlib.tlc("codec", "InterchangeMC", "InterchangeMC.cfg", coverage=True, scratch=sc, timeout=900)
+        r = vlib.tlc("codec", "InterchangeMC", "InterchangeMC.cfg", coverage=True, scratch=sc, timeout=900,
+                     consts=None if thorough else "CONSTANT Builds <- MCBuilds2")
         vlib.expect_tlc_ok(r, "InterchangeMC")
         if r.violation:
             raise vlib.MachineryError("Interchange design violates %s (specification error, not a verdict)" % r.violation)
         vlib.require(r.coverage.get("WriteOut", (0, 0))[0] > 0, "vacuous: WriteOut never taken")
-        run.add_tlc(r, "InterchangeMC 4 builds x 3 encoders x 3 classes, 3 blocks")
+        run.add_tlc(r, "InterchangeMC %d builds x 3 encoders x 3 classes, 3 blocks" % (4 if thorough else 2))
         n = vlib.tlc("codec", "InterchangeMC", "InterchangeMCNeg.cfg", scratch=sc, timeout=300)
         vlib.require(n.violation == "Interchangeable", "negative control: the appending zstd design was not rejected by the model (%s)"
                      % (n.violation or n.error))
@@ -132,8 +143,7 @@ def main():
                     if k >= len(st["beh"]):
                         continue
                     a = st["beh"][k]["act"]
-                    rng = random.Random(run.seed * 1000003 + st["idx"] * 31 + k)
-                    level = rng.choice([0, 0, 1, {"lz4": 12, "zstd": 19, "null": 0}[a["e"]]])
+                    level = pick_level(run.seed, st["idx"], k, a, thorough)
                     by_build.setdefault(a["b"], []).append({"db": st["db"], "id": a["id"], "enc": a["e"], "level": level, "cls": a["c"],
                                                             "seed": data_seed(run.seed, st["idx"]), "mode": st["mode"],
                                                             "beh": st["idx"]})
@@ -209,7 +219,7 @@ def main():
                                 "cls": a["c"], "mode": st["mode"],
                                 "readers": "all" if len(readers) == len(bnames) else ",".join(readers)}
                         fail(desc, {"kind": "ix", "behaviour": st["beh"], "step": k, "block": bi + 1, "writer_build": a["b"],
-                                    "seed": run.seed, "index": st["idx"], "mode": st["mode"],
+                                    "seed": run.seed, "thorough": thorough, "index": st["idx"], "mode": st["mode"],
                                     "observed": {rb: {"view": o["view"], "detail": o["detail"], "stored": o["stored"]}
                                                  for rb, o in per_reader.items()}})
                         dead.add(key)
@@ -265,9 +275,9 @@ def main():
     run.cov["rule"] = ("every sequence of 2 write-outs over writer build (%d) x encoder (3) x block class (3), plus simulated sequences of "
                        "%d; after every write-out all %d builds read back; distinct = distinct (build, encoder, class) sequences; "
                        "evaluations = blocks read back and compared" % (len(bnames), dsim, len(bnames)))
-    run.assumptions += ["flows / raw column bytes of a block class are seeded samples; 'big' blocks hold 7000-10000 flows so that a "
+    run.assumptions += ["flows / raw column bytes of a block class are seeded samples; 'big' blocks hold 6000-8000 flows so that a "
                         "compressible column exceeds its compressed size by more than GPFile's 8 KiB scratch slice",
-                        "levels are sampled from {default, 1, max} per write-out",
+                        "levels are sampled from {default, 1, max} per write-out (pure-Go zstd: from its four level classes, the slowest rarely)",
                         "expected column bytes of a flow block are computed by harness/internal/store.Columns from exported goProbe "
                         "pieces (a divergence there would fail same-build pairs too)",
                         "quick tier: builds cgo and CGO_ENABLED=0 only (4 ordered pairs); thorough: all 16 pairs"]
@@ -287,8 +297,7 @@ def replay(path):
         db = os.path.join(sc, "db")
         for k, s in enumerate(beh):
             a = s["act"]
-            rng = random.Random(seed * 1000003 + idx * 31 + k)
-            level = rng.choice([0, 0, 1, {"lz4": 12, "zstd": 19, "null": 0}[a["e"]]])
+            level = pick_level(seed, idx, k, a, d.get("thorough", False))
             run_jobs(vhs[a["b"]], "codec-ix-write", [{"db": db, "id": a["id"], "enc": a["e"], "level": level, "cls": a["c"],
                                                       "seed": data_seed(seed, idx), "mode": mode, "beh": idx}])
             for rb in sorted(s["exp"]["views"].keys()):
